@@ -226,8 +226,10 @@ def elementwise2(interp, st, fn, a, b, dtype=None, opname=None):
 def _mk(interp, st, shape, dt, cells):
     """New array; cells are cast to the dtype without range obligations for floats/bools."""
     if dt in INT_RANGES and not interp.concrete:
-        # intermediate integer arrays: keep mathematical integers (Numba widens to int64)
-        return interp.new_array(st, shape, dt, cells=cells)
+        # array arithmetic keeps the array dtype (NumPy / Numba do not widen array operands): values wrap
+        if dt in ("int64", "uint64"):
+            return interp.new_array(st, shape, dt, cells=cells)
+        return interp.new_array(st, shape, dt, cells=[interp.cast_store(st, dt, c, what="integer array arithmetic") for c in cells])
     if dt == "bool":
         cells = [c if V.is_boolish(c) else interp.A.truthy(c) for c in cells]
         return interp.new_array(st, shape, dt, cells=cells)
@@ -974,6 +976,15 @@ def np_unique(interp, st, a, **kw):
 
 
 @native
+def np_sort(interp, st, a, **kw):
+    vals, mask = _values_of(interp, st, a)
+    if mask is not None:
+        raise Unsupported("sort of compacted array")
+    srt = sorted_terms(interp, st, vals) if any(is_sym(v) for v in vals) else sorted(vals)
+    return interp.new_array(st, (len(srt),), a.dtype if isinstance(a, Arr) else "float64", cells=srt)
+
+
+@native
 def np_where(interp, st, cond, x=None, y=None):
     if x is None:
         if isinstance(cond, CArr):
@@ -1510,7 +1521,7 @@ LIB = {
     "numpy.array": np_array_fn, "numpy.asarray": np_array_fn, "numpy.arange": np_arange,
     "numpy.sum": np_sum, "numpy.abs": np_abs, "numpy.round": np_round, "numpy.isnan": np_isnan, "numpy.isinf": np_isinf,
     "numpy.isfinite": np_isfinite, "numpy.cos": _np_ew("cos"), "numpy.sqrt": _np_ew("sqrt"), "numpy.log": _np_ew("log"),
-    "numpy.median": np_median, "numpy.nanmedian": np_nanmedian, "numpy.unique": np_unique, "numpy.where": np_where,
+    "numpy.median": np_median, "numpy.nanmedian": np_nanmedian, "numpy.unique": np_unique, "numpy.sort": np_sort, "numpy.where": np_where,
     "numpy.any": np_any, "numpy.all": np_all, "numpy.diff": np_diff, "numpy.searchsorted": np_searchsorted,
     "numpy.log10": np_log10, "numpy.dtype": np_dtype,
     "numba.prange": numba_prange,
